@@ -134,6 +134,9 @@ class PythonCryptoEndpoint(CryptoEndpoint, EndpointListener):
         """
         Process incoming raw data, assumed to be a cell, originating from a given address.
         """
+        if len(data) < 30:
+            self.logger.debug("Dropping cell (too short)")
+            return
         cell = CellPayload.from_bin(data)
         circuit_id = cell.circuit_id
 
@@ -278,7 +281,7 @@ class PythonCryptoEndpoint(CryptoEndpoint, EndpointListener):
 
             try:
                 cell.message = hop.keys.encrypt_str(cell.message, direction)
-            except ValueError as e:
+            except (ValueError, RuntimeError) as e:
                 msg = f"Failed to encrypt cell for {cell.circuit_id} (dir {direction}) (layer {layer + 1}/{len(hops)})"
                 raise CryptoException(msg) from e
 
@@ -298,7 +301,7 @@ class PythonCryptoEndpoint(CryptoEndpoint, EndpointListener):
 
             try:
                 cell.message = hop.keys.decrypt_str(cell.message, direction)
-            except ValueError as e:
+            except (ValueError, RuntimeError) as e:
                 msg = f"Failed to decrypt cell for {cell.circuit_id} (dir {direction}) (layer {layer + 1}/{len(hops)})"
                 raise CryptoException(msg) from e
 
